@@ -439,13 +439,18 @@ theorem onItem_sle (e : Env) (d : D) (w : World) (rid : Nat) (body : ReqBody) (s
     (rb : Nat) : SLe d w (onItem e d w rid body segs rb).1 (onItem e d w rid body segs rb).2 := by
   unfold onItem
   simp only
-  split
-  · exact ⟨World.Le.refl _, id⟩
-  · exact ⟨le_setChan _ _ _, id⟩
-  · exact ⟨le_setChan _ _ _, id⟩
+  split <;> first | exact ⟨World.Le.refl _, id⟩ | exact ⟨le_setChan _ _ _, id⟩
 
 theorem onTooLarge_sle (d : D) (w : World) : SLe d w (onTooLarge d w).1 (onTooLarge d w).2 := by
   unfold onTooLarge
+  refine ⟨?_, fun _ => rfl⟩
+  simp only
+  split
+  · exact setError_le _ _ _
+  · exact World.Le.refl _
+
+theorem onBad_sle (d : D) (w : World) : SLe d w (onBad d w).1 (onBad d w).2 := by
+  unfold onBad
   refine ⟨?_, fun _ => rfl⟩
   simp only
   split
@@ -469,15 +474,17 @@ theorem decodeLoop_sle (e : Env) : ∀ (fuel : Nat) (d : D) (w : World) (upd : B
       next d1 w1 h1 =>
       have s1 := sle_of_eq h1 (onItem_sle _ _ _ _ _ _ _)
       split
+      · exact s1.trans ⟨World.Le.refl _, id⟩
       · split
-        next d2 w2 h2 =>
-        have s2 := sle_of_eq h2 (handleRequest_sle _ _ _ _)
-        refine s1.trans ?_
-        refine SLe.trans ?_ (s2.trans (ih _ _ _))
-        exact ⟨World.Le.refl _, id⟩
-      · refine s1.trans ?_
-        refine SLe.trans ?_ (ih _ _ _)
-        exact ⟨World.Le.refl _, id⟩
+        · split
+          next d2 w2 h2 =>
+          have s2 := sle_of_eq h2 (handleRequest_sle _ _ _ _)
+          refine s1.trans ?_
+          refine SLe.trans ?_ (s2.trans (ih _ _ _))
+          exact ⟨World.Le.refl _, id⟩
+        · refine s1.trans ?_
+          refine SLe.trans ?_ (ih _ _ _)
+          exact ⟨World.Le.refl _, id⟩
     · -- chunk
       split
       · refine SLe.trans ?_ (ih _ _ _)
@@ -492,6 +499,9 @@ theorem decodeLoop_sle (e : Env) : ∀ (fuel : Nat) (d : D) (w : World) (upd : B
     · -- tooLarge
       split
       next d1 w1 h1 => exact sle_of_eq h1 (onTooLarge_sle _ _)
+    · -- bad request
+      split
+      next d1 w1 h1 => exact sle_of_eq h1 (onBad_sle _ _)
 
 
 theorem le_of_snd_eq {α : Type} {w w' : World} {a : α} {p : α × World} (h : p = (a, w'))
@@ -566,6 +576,7 @@ theorem pollResponse_sle (e : Env) : ∀ (fuel : Nat) (d : D) (w : World),
         have s1 := sle_of_eq h1 (sendResponse_sle _ _ _ _ _ _ _)
         refine SLe.trans ?_ (s1.trans (ih _ _))
         exact ⟨World.Le.refl _, id⟩
+      · exact ⟨World.Le.refl _, id⟩
       · exact ⟨World.Le.refl _, id⟩
     · -- service
       split
@@ -729,7 +740,9 @@ theorem respFlushLoop_spec (e : Env) (prFuel : Nat) : ∀ (fuel : Nat) (d : D) (
     split
     · next k d1 w1 hp =>
       exact ⟨sle_of_eq3 hp (pollResponse_sle _ _ _ _), by intro h; simp at h⟩
-    · next pr d1 w1 hne hp =>
+    · next d1 w1 hp =>
+      exact ⟨sle_of_eq3 hp (pollResponse_sle _ _ _ _), by intro h; simp at h⟩
+    · next pr d1 w1 hne hne2 hp =>
       have s1 := sle_of_eq3 hp (pollResponse_sle _ _ _ _)
       simp only
       generalize hd2 : (if (!(pr == PR.drain) && d1.flags.keepAlive && d1.flags.finished &&
@@ -899,11 +912,34 @@ theorem dFlush_flags (d : D) (w : World) : (dFlush d w).2.1.flags = d.flags := b
   · rfl
   · split <;> rfl
 
-theorem maxBuf_pos : 0 < Consts.h1MaxBufferSize := by decide
-
 theorem post_of_eq3 {α : Type} {P : α → D → World → Prop} {a : α} {d' : D} {w' : World}
     {p : α × D × World} (h : p = (a, d', w')) (hp : P p.1 p.2.1 p.2.2) : P a d' w' := by
   subst h; exact hp
+
+theorem dFlush_upgraded (d : D) (w : World) : (dFlush d w).2.1.upgraded = d.upgraded := by
+  unfold dFlush
+  simp only
+  split
+  · rfl
+  · rfl
+  · split <;> rfl
+
+/-- a `Pending` result of the upgraded connection: the inherited bytes + marker are being
+written; the waker is stored with the socket's write side -/
+theorem upgradeBranch_spec (d : D) (w : World) (d' : D) (w' : World)
+    (h : upgradeBranch d w = (.pending, d', w')) :
+    FlushOK d' w' ∧ d'.upgraded = d.upgraded := by
+  unfold upgradeBranch at h
+  split at h
+  · simp at h
+  · next d1 w1 hf =>
+    simp at h; obtain ⟨rfl, rfl⟩ := h
+    have pf : FlushPost .pending d1 w1 := post_of_eq3 hf (dFlush_spec d w).2
+    have hu : d1.upgraded = d.upgraded := by have := dFlush_upgraded d w; rw [hf] at this; exact this
+    exact ⟨FlushOK.of_post pf (by simp), hu⟩
+  · simp at h
+
+theorem maxBuf_pos : 0 < Consts.h1MaxBufferSize := by decide
 
 theorem lingerLoop_pending (e : Env) : ∀ (fuel : Nat) (d : D) (w : World) (d' : D) (w' : World),
     lingerLoop e fuel d w = (.pending, d', w') →
@@ -1052,13 +1088,15 @@ theorem tailFlags_spec (e : Env) (d : D) (w : World) :
   · exact ⟨⟨World.Le.refl _, id⟩, rfl, rfl⟩
   · exact ⟨SLe.refl _ _, rfl, rfl⟩
 
-theorem tailDecide_ret (fixed full : Bool) (d : D) (w : World) (r : PollRes) (d' : D)
-    (w' : World) (h : tailDecide fixed full d w = .ret r d' w') :
+theorem tailDecide_ret (fixed full qfull : Bool) (d : D) (w : World) (r : PollRes) (d' : D)
+    (w' : World) (h : tailDecide fixed full qfull d w = .ret r d' w') :
     SLe d w d' w' ∧ d'.wlen = d.wlen ∧ w'.dirty = w.dirty ∧ d'.rb = d.rb ∧
     (r = .pending → w'.woken = false →
       d'.flags.linger = false ∧ d'.flags.shutdown = false ∧
       (fixed = true →
-        ¬(full = true ∧ d'.rb < Consts.h1MaxBufferSize ∧ d'.flags.readDisc = false))) := by
+        ¬(full = true ∧ d'.rb < Consts.h1MaxBufferSize ∧ d'.flags.readDisc = false) ∧
+        ¬(qfull = true ∧ d'.messages.length < Consts.h1MaxPipelined ∧ d'.rb > 0 ∧
+          d'.flags.readDisc = false))) := by
   unfold tailDecide at h
   split at h
   · simp at h; obtain ⟨rfl, rfl, rfl⟩ := h
@@ -1076,12 +1114,16 @@ theorem tailDecide_ret (fixed full : Bool) (d : D) (w : World) (r : PollRes) (d'
           simp only [Bool.or_eq_true, not_or, Bool.not_eq_true] at hcond
           obtain ⟨⟨hA, hl⟩, hs⟩ := hcond
           refine ⟨hl, hs, ?_⟩
-          rintro hfx ⟨hf, hlt, hrd⟩
+          intro hfx
           unfold fixWake at hA
-          simp [hfx, hf, hlt, hrd] at hA
+          constructor
+          · rintro ⟨hf, hlt, hrd⟩
+            simp [hfx, hf, hlt, hrd] at hA
+          · rintro ⟨hq, hm, hrb, hrd⟩
+            simp [hfx, hq, hm, hrb, hrd] at hA
 
-theorem tailDecide_again (fixed full : Bool) (d : D) (w : World) (d' : D)
-    (w' : World) (h : tailDecide fixed full d w = .again d' w') :
+theorem tailDecide_again (fixed full qfull : Bool) (d : D) (w : World) (d' : D)
+    (w' : World) (h : tailDecide fixed full qfull d w = .again d' w') :
     SLe d w d' w' ∧ d'.wlen = d.wlen ∧ w'.dirty = w.dirty := by
   unfold tailDecide at h
   split at h
@@ -1094,29 +1136,31 @@ theorem tailDecide_again (fixed full : Bool) (d : D) (w : World) (d' : D)
         exact ⟨SLe.refl _ _, rfl, rfl⟩
       · split at h <;> simp at h
 
-theorem normalTail_ret (e : Env) (full : Bool) (d : D) (w : World) (r : PollRes) (d' : D)
-    (w' : World) (h : normalTail e full d w = .ret r d' w') :
+theorem normalTail_ret (e : Env) (full qfull : Bool) (d : D) (w : World) (r : PollRes) (d' : D)
+    (w' : World) (h : normalTail e full qfull d w = .ret r d' w') :
     SLe d w d' w' ∧ d'.wlen = d.wlen ∧ w'.dirty = w.dirty ∧ d'.rb = d.rb ∧
     (r = .pending → w'.woken = false →
       d'.flags.linger = false ∧ d'.flags.shutdown = false ∧
       (e.cfg.fixed = true →
-        ¬(full = true ∧ d'.rb < Consts.h1MaxBufferSize ∧ d'.flags.readDisc = false))) := by
+        ¬(full = true ∧ d'.rb < Consts.h1MaxBufferSize ∧ d'.flags.readDisc = false) ∧
+        ¬(qfull = true ∧ d'.messages.length < Consts.h1MaxPipelined ∧ d'.rb > 0 ∧
+          d'.flags.readDisc = false))) := by
   unfold normalTail at h
   split at h
   · simp at h; obtain ⟨rfl, rfl, rfl⟩ := h
     exact ⟨SLe.refl _ _, rfl, rfl, rfl, by intro h; simp at h⟩
   · obtain ⟨s1, hw1, hrb1⟩ := tailFlags_spec e d w
-    obtain ⟨s2, hw2, hd2, hrb2, hp⟩ := tailDecide_ret _ _ _ _ _ _ _ h
+    obtain ⟨s2, hw2, hd2, hrb2, hp⟩ := tailDecide_ret _ _ _ _ _ _ _ _ h
     exact ⟨s1.trans s2, hw2.trans hw1, hd2, hrb2.trans hrb1, hp⟩
 
-theorem normalTail_again (e : Env) (full : Bool) (d : D) (w : World) (d' : D)
-    (w' : World) (h : normalTail e full d w = .again d' w') :
+theorem normalTail_again (e : Env) (full qfull : Bool) (d : D) (w : World) (d' : D)
+    (w' : World) (h : normalTail e full qfull d w = .again d' w') :
     SLe d w d' w' ∧ d'.wlen = d.wlen ∧ w'.dirty = w.dirty := by
   unfold normalTail at h
   split at h
   · simp at h
   · obtain ⟨s1, hw1, _⟩ := tailFlags_spec e d w
-    obtain ⟨s2, hw2, hd2⟩ := tailDecide_again _ _ _ _ _ _ h
+    obtain ⟨s2, hw2, hd2⟩ := tailDecide_again _ _ _ _ _ _ _ h
     exact ⟨s1.trans s2, hw2.trans hw1, hd2⟩
 
 
@@ -1139,13 +1183,13 @@ theorem poll_spec (e : Env) (F : Nat) : ∀ (depth : Nat) (d : D) (w : World) (d
     poll e F depth d w = (.pending, d', w') → w'.woken = false →
     FlushOK d' w' ∧
     (e.cfg.fixed = true → d'.flags.linger = false → d'.flags.shutdown = false →
-      ReadOK d' w') := by
+      d'.upgraded = false → ReadOK d' w') := by
   intro depth
   induction depth with
   | zero =>
     intro d w d' w' h _
     simp [poll] at h; obtain ⟨rfl, rfl⟩ := h
-    exact ⟨Or.inr (Or.inr (Or.inr rfl)), fun _ _ _ => Or.inr (Or.inl (Or.inr (Or.inr rfl)))⟩
+    exact ⟨Or.inr (Or.inr (Or.inr rfl)), fun _ _ _ _ => Or.inr (Or.inl (Or.inr (Or.inr rfl)))⟩
   | succ depth ih =>
     intro d w d' w' h hw
     unfold poll at h
@@ -1156,7 +1200,7 @@ theorem poll_spec (e : Env) (F : Nat) : ∀ (depth : Nat) (d : D) (w : World) (d
       · -- LINGER
         next hlin =>
         obtain ⟨hf, hp⟩ := lingerBranch_spec e d0 w0 d' w' h hw
-        refine ⟨hf, fun _ hl _ => ?_⟩
+        refine ⟨hf, fun _ hl _ _ => ?_⟩
         rcases hp with h1 | h1 | h1
         · rw [hlin] at h1; rw [h1] at hl; simp at hl
         · exact Or.inl h1
@@ -1165,7 +1209,7 @@ theorem poll_spec (e : Env) (F : Nat) : ∀ (depth : Nat) (d : D) (w : World) (d
         · -- SHUTDOWN
           next hsd =>
           obtain ⟨hf, hfl⟩ := shutdownBranch_spec e d0 w0 d' w' h
-          refine ⟨hf, fun _ _ hs => ?_⟩
+          refine ⟨hf, fun _ _ hs _ => ?_⟩
           rw [hfl, hsd] at hs; simp at hs
         · -- normal
           split at h
@@ -1182,17 +1226,22 @@ theorem poll_spec (e : Env) (F : Nat) : ∀ (depth : Nat) (d : D) (w : World) (d
             obtain ⟨k, d3, w3⟩ := rf
             simp only at h s3 hf3
             split at h
-            · simp at h
+            · -- `PollResponse::Upgrade` (or an error)
+              split at h
+              · obtain ⟨hfu, hu⟩ := upgradeBranch_spec _ _ _ _ h
+                refine ⟨hfu, fun _ _ _ hnu => ?_⟩
+                rw [hu] at hnu; simp [enterUpgrade, D.produce] at hnu
+              · simp at h
             · next heq =>
               simp at heq; obtain ⟨rfl, rfl, rfl⟩ := heq
               have hf3 := hf3 rfl
               split at h
               · next r d4 w4 hn =>
                 simp at h; obtain ⟨rfl, rfl, rfl⟩ := h
-                obtain ⟨s4, hw4, hd4, hrb4, hp4⟩ := normalTail_ret _ _ _ _ _ _ _ hn
-                refine ⟨hf3.mono hw4 hd4 s4.world, fun hfx _ _ => ?_⟩
+                obtain ⟨s4, hw4, hd4, hrb4, hp4⟩ := normalTail_ret _ _ _ _ _ _ _ _ hn
+                refine ⟨hf3.mono hw4 hd4 s4.world, fun hfx _ _ _ => ?_⟩
                 obtain ⟨_, _, hA⟩ := hp4 rfl hw
-                have hA := hA hfx
+                have hA := (hA hfx).1
                 have s24 := s2.trans (s3.trans s4)
                 by_cases hfull : d1.rb ≥ Consts.h1MaxBufferSize
                 · -- the socket was skipped at the cap: either still at the cap or disconnected
@@ -1243,9 +1292,10 @@ theorem shutdownBranch_registered (e : Env) (d : D) (w : World) (d' : D) (w' : W
 
 /-- unfolding `pollTop`: a `Pending` verdict comes from a `poll` that did not run out of fuel -/
 theorem pollTop_pending {e : Env} {F : Nat} {d d' : D} {w w' : World}
-    (h : pollTop e F d w = (.pending, d', w')) :
+    (hnu : d.upgraded = false) (h : pollTop e F d w = (.pending, d', w')) :
     poll e F 2 d w = (.pending, d', w') ∧ w'.fuelOut = false := by
   unfold pollTop at h
+  simp only [hnu, Bool.false_eq_true, if_false] at h
   generalize poll e F 2 d w = p at h
   obtain ⟨r, d1, w1⟩ := p
   simp only at h
